@@ -126,6 +126,9 @@ func checkC04(c *Ctx, r *Report) {
 	includeClauses(c, r, "C04.b", checkC10, "C10.c")
 	// every cell with two or more candidates is resolved at all (C02.a)
 	includeSome(r, "C04.e", func(sub *Report) { c02a(c, sub) }, "fold-covers-every-conflict")
+	// the error cell a %nonassoc resolution leaves is a cell like any other: it reaches the packed parser only if
+	// exactly the cells equal to the row's default are blanked (C05.c)
+	includeSome(r, "C04.e", func(sub *Report) { c05c(c, sub) }, "blank-equals-own-default")
 }
 
 // c04e — a cell with three or more candidate actions: the property's pairwise rules are applied as a LEFT FOLD,
